@@ -285,6 +285,9 @@ func (x *Ctx) Finish(evidencePath string) int {
 	x.mu.Lock()
 	defer x.mu.Unlock()
 	broken := append([]string{}, x.brok...)
+	if len(x.tally) == 0 && len(x.viol) == 0 && len(broken) == 0 {
+		broken = append(broken, "the workload observed nothing (no class was evaluated): such a run decides nothing")
+	}
 	for _, r := range x.reqs {
 		t := x.tally[r.class]
 		if t == nil {
